@@ -24,7 +24,7 @@ PROP = {'engine': 'c07',
          'under a small block gas limit (candidates and sub-transactions in the middle of a box run into the exhausted gas pool), and a block with candidates that were '
          'tried and not packaged must equal the block the miner produces from the packaged list alone (compared only when both runs package the same ordered list). distinct = distinct (operation-kind '
          'sequence with revert levels | program kind, entry, snapshot/revert counts | set of change-log types of the block); non-trivial = at '
-         'least 2 reverts, nesting >= 2 and 4 setter kinds | an EVM-issued revert with >= 2 live snapshots | a block with >= 3 log types A fixed sequence changes only the weights of a multi-signature account\'s signers (both, one), then replaces a signer, replaying each block\'s published logs.',
+         'least 2 reverts, nesting >= 2 and 4 setter kinds | an EVM-issued revert with >= 2 live snapshots | a block with >= 3 log types A fixed sequence changes only the weights of a multi-signature account\'s signers (both, one), then replaces a signer, replaying each block\'s published logs. A call that fails without the EVM issuing any rollback must leave the state as before (before/after observation).',
  'assumptions': ['absent == empty for storage values, profile keys and asset-id metadata in observations (roots and change logs are compared exactly)',
                  'code hash {} == keccak(nil) (both mean no code); the in-memory event slice is not account state',
                  'the self-destruct flag is not saved with the account, so it is excluded from the redo-vs-saved-state comparison',
